@@ -311,6 +311,17 @@ def run_strings(cx):
             "and a malformed stream; non-trivial = distinct request")
     cases = []
     text_reqs = []   # (text, fmt, level, flags, name)
+    # corpus first: the witness requests of the listed findings
+    cfile = os.path.join(paths.CORPUS, "yangstr", "requests.txt")
+    if os.path.exists(cfile):
+        for l in open(cfile):
+            t = l.split()
+            if len(t) >= 3:
+                cases.append(" ".join(t[1:]))
+                if t[1] == "yprtext":
+                    text_reqs.append((unhex(t[6]), int(t[2]), int(t[3]), int(t[4]), unhex(t[5])))
+                elif t[1] == "encode":
+                    texts.insert(0, unhex(t[2]))
     for t in texts:
         cases.append("encode " + hexs(t))
         combos = [(1, rng.choice([0, 1, 2, 3, 6]), f, rng.choice(NAMES)) for f in (0, 1, 2, 3)]
